@@ -53,6 +53,9 @@ func mulU128(a, b uint64) uint64 { return a * b }
 func mathInt(x uint64) int64 { return int64(x) }
 func isnil[T any](s []T) bool { return s == nil }
 func same[T any](a, b T) bool { return reflect.DeepEqual(a, b) }
+func quant(x float64) int64 { return int64(math.RoundToEven(x)) }
+func pow10(p int) float64 { return math.Pow(10, float64(p)) }
+func truncF(x float64) int64 { return int64(x) }
 `
 
 func funcKey(fd *ast.FuncDecl) string {
@@ -458,6 +461,8 @@ func assignStmtOf(body *ast.BlockStmt, name string, occ int) ast.Stmt {
 			for _, l := range x.Lhs {
 				if id, ok := l.(*ast.Ident); ok && id.Name == name {
 					hit = true
+				} else if !ok && types.ExprString(l) == name {
+					hit = true
 				}
 			}
 			if hit {
@@ -696,7 +701,7 @@ func (prog *Program) genSynth(p0 *packages.Package) (string, error) {
 		sort.Strings(lps)
 		for _, k := range lps {
 			lc := fc.Loops[k]
-			for _, cl := range lc.Invariants {
+			for _, cl := range append(append([]*Clause{}, lc.Invariants...), lc.Steps...) {
 				if err := emit(cl, false, k, "bool"); err != nil {
 					return "", err
 				}
